@@ -34,7 +34,7 @@ def Code.kinds : Code → List String
   | .cmp .. => ["cmp"]
   | .unitVariant .. => ["unitVariant"]
   | .enumTuple _ _ _ _ body _ => "enumTuple" :: body.kinds
-  | .structNamed _ _ _ _ _ body _ => "structNamed" :: body.kinds
+  | .structNamed _ _ _ _ _ _ body _ => "structNamed" :: body.kinds
   | .tuple _ _ body => "tuple" :: body.kinds
   | .range .. => ["range"]
   | .slice _ _ body _ => "slice" :: body.kinds
